@@ -73,6 +73,7 @@ type harnessEvidence struct {
 	OutOfBound     int               `json:"out_of_bound_paths"`
 	NonTrivial     int               `json:"paths_with_symbolic_inputs"`
 	Truncated      bool              `json:"truncated,omitempty"`
+	Solver         string            `json:"solver"`
 }
 
 type checkRun struct {
@@ -382,6 +383,10 @@ func runCheck(pd *propDef, tier string, seed int, verifDir, only string, workers
 		he := harnessEvidence{Name: hd.Name, Tags: tags, Paths: rep.Paths, Kinds: rep.Kinds, Queries: rep.Queries, SymAsserts: rep.SymAsserts,
 			Unknown: rep.Unknowns, Steps: rep.Steps, SolverS: rep.SolverS, WallS: rep.WallS, Asserts: rep.Asserts, Bounds: rep.Bounds,
 			Funcs: repoFuncs(rep.Funcs), Stubs: rep.Stubs, OutOfBound: rep.Kinds["outside"], NonTrivial: rep.NonTrivial, Truncated: rep.Truncated}
+		he.Solver = "z3 4.8.12 (/usr/bin/z3 -in), incremental, bit-vector encoding"
+		if spec.Cfg.IntMode {
+			he.Solver = "z3 5.1.0 (z3-new -in), incremental, integer-with-wrap encoding"
+		}
 		fmt.Printf("[%s] %s tags=%s paths=%d %v queries=%d solver=%.1fs wall=%.1fs\n", pd.ID, hd.Name, tags, rep.Paths, rep.Kinds, rep.Queries, rep.SolverS, rep.WallS)
 		totalPaths += rep.Paths
 		totalQueries += rep.Queries
@@ -568,7 +573,7 @@ func runCheck(pd *propDef, tier string, seed int, verifDir, only string, workers
 		"stubs_hit":                     stubs,
 		"solver_s":                      solverS,
 		"inconclusive":                  inconclusive,
-		"solver":                        "z3 4.8.12 (/usr/bin/z3 -in), incremental, bit-vector encoding",
+		"solver":                        "see harnesses[].solver (z3 4.8.12 bit-vector encoding; z3 5.1.0 for the integer-with-wrap encoding of C20)",
 	}
 	if pd.Level == "translation_validation" {
 		cov["programs"] = len(hev)
